@@ -352,11 +352,11 @@ ExecIT(x, i) == [x EXCEPT !.s.cpsr = SetIT(@, i.fc * 16 + i.mask)]
 (* generic coprocessor instructions (CDP, MCR, MRC, MCRR, MRRC, LDC, STC and their "2" forms), B1.? Coproc_Accepted: *)
 (* UNDEFINED when NSACR.cp<n> denies Non-secure use or CPACR.cp<n> denies the current privilege; CPACR.cp<n> = '10'  *)
 (* is UNPREDICTABLE; an accepted instruction reaches the emulator's (documented, unimplemented) coprocessor hooks.   *)
-(* With the Virtualization Extensions, HCPTR traps are not specified here (envelope).                                *)
+(* With the Virtualization Extensions, HCPTR.TCP<n> traps the access to Hyp mode (UNDEFINED from Hyp mode itself).    *)
 CPACRcp(s, cp) == Slice(s.sys.CPACR, 2 * cp + 1, 2 * cp)
 \* CP14 / CP15 (B1.? Coproc_Accepted, cases 14 and 15): which instruction forms exist in these spaces at all
 \* (everything else is UNDEFINED), then the emulator's documented not-implemented decode hooks.  The "2" forms
-\* (cond = 1111 / Thumb T2) do not exist here.  Traps to Hyp mode (HSTR, HCR.TIDCP, HSTR.TTEE) and the User-mode
+\* (cond = 1111 / Thumb T2) do not exist here.  HSTR.Tn traps of CP15 accesses are specified; HCR.TIDCP, HSTR.TTEE and the User-mode
 \* rules for the ThumbEE registers (opc1 = 6: I do not vouch for the TEECR / TEEHBR selector bit from memory) are
 \* not specified: envelope only.
 ExecCPSys(x, i) ==
@@ -368,8 +368,12 @@ ExecCPSys(x, i) ==
        LET tworeg == Slice(w, 27, 21) = 98 /\ ~uncond                         \* MCRR / MRRC
            crn    == IF tworeg THEN Slice(w, 3, 0) ELSE Slice(w, 19, 16)
        IN IF (~mcrmrc) /\ ~tworeg THEN Raise(x, "undef")
-          ELSE IF virtNS THEN Unpred(NotImpl(x, "cp15-hyp-traps"))
           ELSE IF crn = 4 THEN Unpred(NotImpl(x, "cp15-crn4"))                   \* c4 is unallocated: UNPREDICTABLE
+          \* HSTR.T<CRn> (CRn /= 14): Non-secure PL1 accesses to the CP15 primary register number CRn (CRm for MCRR / MRRC)
+          \* are trapped to Hyp mode; at PL0 the emulator first asks its unimplemented hook instr_is_pl0_undefined()
+          ELSE IF virtNS /\ crn # 14 /\ Bit(s.sys.HSTR, crn) = 1
+               THEN (IF Mode(s) = USR THEN NotImpl(x, "instr_is_pl0_undefined") ELSE Raise(x, "hyptrap"))
+          ELSE IF virtNS /\ Bit(s.sys.HCR, 20) = 1 /\ ~tworeg THEN Unpred(NotImpl(x, "cp15-hcr-tidcp"))   \* TIDCP: not specified
           ELSE NotImpl(x, "cp15_instr_decode")
      ELSE
        LET mrrc   == Slice(w, 27, 20) = 197 /\ ~uncond                        \* MRRC only: there is no MCRR to CP14
@@ -395,7 +399,10 @@ ExecCoproc(x, i) ==
   IN IF nsdeny THEN Raise(x, "undef")
      ELSE IF (~viahyp) /\ (acc = 0 \/ (acc = 1 /\ Mode(s) = USR)) THEN Raise(x, "undef")
      ELSE IF (~viahyp) /\ acc = 2 THEN Unpred(x)
-     ELSE IF s.cfg.sec /\ s.cfg.virt /\ ~IsSecure(s) THEN Unpred(NotImpl(x, "coproc-hcptr"))
+     \* HCPTR.TCP<n> (Virtualization Extensions, Non-secure): the access is trapped to Hyp mode; from Hyp mode itself it is
+     \* UNDEFINED.  (HSR syndrome: don't-care, see StepF.)
+     ELSE IF s.cfg.sec /\ s.cfg.virt /\ (~IsSecure(s)) /\ Bit(s.sys.HCPTR, i.cp) = 1
+          THEN (IF Mode(s) = HYP THEN Raise(x, "undef") ELSE Raise(x, "hyptrap"))
      ELSE NotImpl(x, IF i.memop THEN "coproc-mem" ELSE "coproc")
 -----------------------------------------------------------------------------
 (* exclusive loads and stores (A8.8.75-78, .212-215; B2.4.6 SetExclusiveMonitors / ExclusiveMonitorsPass).         *)
